@@ -54,8 +54,12 @@ void UncompressedFile::read(char * s, std::streamsize n) {
     while (n > 0) {
         /* find starting log container */
         std::shared_ptr<LogContainer> logContainer = logContainerContaining(m_tellg);
-        if (!logContainer)
+        if (!logContainer) {
+            /* the data is not there (the stream was aborted): as with iostreams a short read is a failed read,
+             * otherwise the caller would go on decoding whatever its buffer contains */
+            m_rdstate = std::ios_base::eofbit | std::ios_base::failbit;
             break;
+        }
 
         /* offset to read */
         std::streamoff offset = m_tellg - logContainer->filePosition;
